@@ -653,7 +653,7 @@ func main() {
 	}
 	nCases := 5000
 	if r.Thorough {
-		nCases = 400000
+		nCases = 150000
 	}
 	workers := runtime.NumCPU()
 	if workers > 16 {
